@@ -177,5 +177,18 @@ TEXT = {
   "note": "Trusted: Coq kernel, extraction (ExtrOcamlBasic), OCaml driver, Go harness with a fake resolver.Resolver as upstream; the kernel's loopback UDP path.",
   "technique": "Coq proof (lia over the truncation rule, list lemmas) + differential correspondence check of the extracted model against the live proxy",
  },
+ "C20": {
+  "text": "Proved in Coq (Properties/C20.v) on a transcription of the eight router packages over an environment of managed file, uci (staged / "
+          "committed) and nvram stores, where `restart` records what dnsmasq loads: for every firmware, setting and pre-existing state, after a "
+          "successful Configure + Setup the running dnsmasq forwards to exactly 127.0.0.1#5342 with no-resolv and add-mac iff reporting (or has DNS "
+          "off port 53 when the proxy takes :53, without stopping dnsmasq from starting); after Restore from ANY state - including the one an unclean "
+          "stop left - nothing loaded points at the proxy or keeps DNS off; after a start/stop cycle from a state without remnants the owner's "
+          "configuration (nvram variables, postconf script) is back, merlin's owner part also surviving any number of unclean stops. Hypotheses are "
+          "named in the statements: no uncommitted uci changes (openwrt setup), no '\\r\\r\\n' line ends in the postconf (merlin). Tie: the real "
+          "packages run in a chroot jail against a multi-call shim, compared call by call with the extracted model.",
+  "note": "Trusted: Coq kernel, extraction, driver, harness, and the shim's semantics of uci / nvram / service tools (stated under assumptions). Defects found and fixed in /repo: F11 openwrt never wrote port=0 after deleting port 53; F22 openwrt Restore deleted the owner's DHCP option; F20 firewalla add-mac unconditional; F12 ddwrt Restore left the NextDNS options in place (unset by 'name=', missing and multi-line variables lost, own options saved after an unclean stop). Open gap: the openwrt clean-cycle statement for uci forwarders / DHCP options is covered by the differential run only.",
+  "technique": "Coq proof over all firmware kinds, settings and pre-existing states (model transcribed from the router packages) + differential check of the real packages in a chroot jail with fake uci/nvram/service tools",
+ },
 }
-NOT_APPLICABLE = {}
+NOT_APPLICABLE = {
+}
